@@ -19,9 +19,22 @@ def is_const_type(t):
     return t.startswith('const ') or ' const' in t.split('<')[0]
 
 
+def _unqual_ptr(t):
+    """'void *__restrict' / 'char *const' -> the pointer type without the qualifiers of the pointer itself"""
+    t = t.strip()
+    changed = True
+    while changed:
+        changed = False
+        for q in ('__restrict', 'restrict', 'const', 'volatile'):
+            if t.endswith(q) and t[:-len(q)].rstrip().endswith(('*', '&')):
+                t = t[:-len(q)].rstrip()
+                changed = True
+    return t
+
+
 def ref_is_const(t):
     """for 'T &' / 'T *' / 'T &&' type strings: is the referee const?"""
-    t = t.strip()
+    t = _unqual_ptr(t)
     for suf in ('&&', '&', '*'):
         if t.endswith(suf):
             base = t[:-len(suf)].strip()
@@ -30,7 +43,7 @@ def ref_is_const(t):
 
 
 def is_ref_or_ptr(t):
-    t = t.strip()
+    t = _unqual_ptr(t)
     return t.endswith('&') or t.endswith('*')
 
 
